@@ -19,12 +19,16 @@ for f in sorted(glob.glob('/verif/seeded/*/meta.json')):
     elif hist and hist[0].get('detected_before') is False:
         note = 'missed at first; caught after strengthening'
     status = 'caught' if m.get('detected') else 'NOT caught'
+    own = [k for k, v in det.items() if k.startswith(m['property'] + '/') and v.get('detected')]
+    others = sorted(set(k.split('/')[0] for k, v in det.items() if not k.startswith(m['property'] + '/') and v.get('detected')))
+    if m.get('detected') and not own and others:
+        status = 'caught by ' + ', '.join(others) + ' (not by ' + m['property'] + ')'
     title = (m.get('title') or '').replace('|', '/')
     if len(title) > 110: title = title[:107] + '…'
     sig = '; '.join(sigs[:2]).replace('|', '¦')
     if len(sig) > 150: sig = sig[:147] + '…'
     rows.append(f"| {m['id']} | {title} | {status} | {sig} | {note} |")
-table = "| id | seeded change | by its check (quick, seed 1) | first signatures | note |\n|---|---|---|---|---|\n" + "\n".join(rows)
+table = "| id | seeded change | caught (quick, seed 1) | first signatures | note |\n|---|---|---|---|---|\n" + "\n".join(rows)
 p = '/verif/DESIGN.md'
 s = open(p).read()
 start, end = '<!-- SEEDED-TABLE-START -->', '<!-- SEEDED-TABLE-END -->'
